@@ -157,6 +157,7 @@ structure St where
   fulls     : List Nat := []
   overwrites : Nat := 0
   okNotes   : List Msg := []
+  fullNotes : Nat := 0
   obs       : Nat → Nat := fun _ => 0  -- |delivered| when the thread last loaded read_cursor
   cachedObs : Nat := 0                 -- |delivered| the value in cached_r_cur stands for
   know      : Nat → List Msg := fun _ => []
@@ -219,6 +220,7 @@ def finishCall (s : St) (t : Nat) (r : Ret) : St × List String :=
   | .full =>
     let a := s.att t + 1
     let ev := [s!"T{t} note write=full m{s.cfg.gid m}"]
+    let s := { s with fullNotes := s.fullNotes + 1 }
     if s.cfg.tries ≠ 0 ∧ a ≥ s.cfg.tries then (nextMsg s, ev)
     else ({ s with att := upd s.att t a, pc := upd s.pc t .wYield }, ev)
 
@@ -245,7 +247,8 @@ def liveSlot (s : St) (idx : Nat) : Bool :=
   (List.range' s.delivered.length (s.accepted.length - s.delivered.length)).any
     fun j => j % s.cfg.cap == idx
 
-def joinK (a b : List Msg) : List Msg := a ++ b
+/-- union of knowledge sets (no duplicates added, so the lists stay small) -/
+def joinK (a b : List Msg) : List Msg := a ++ b.filter (fun m => !a.contains m)
 
 /-- the write lock was acquired by `t` -/
 def acquired (s : St) (t : Nat) : St :=
@@ -509,6 +512,6 @@ def outcome (s : St) : String :=
   let ret := returned s
   let acc := (s.accepted.take ret.length) ++ (s.accepted.drop s.delivered.length)
   s!"outcome cap={c.cap} wc={s.wc} rc={s.rc} accepted={showIds (acc.map fun m => toString (c.gid m))} " ++
-  s!"delivered={showIds (ret.map (showOpt c))} ok={s.okNotes.length} full={s.fulls.length}"
+  s!"delivered={showIds (ret.map (showOpt c))} ok={s.okNotes.length} full={s.fullNotes}"
 
 end MgModel.C01
